@@ -74,7 +74,7 @@ Theorem C01_d4_pass2_preserves : forall g root g', Inv g -> pass2 g root = Some 
 Proof. exact pass2_preserves. Qed.
 Print Assumptions C01_d4_pass2_preserves.
 
-Theorem C01_d4_pass3_preserves : forall st root st', tables_ok nonzero st -> pass3 true (fun l => l) st root = Some st' ->
+Theorem C01_d4_pass3_preserves : forall st root st', tables_ok nonzero false st -> pass3 true (fun l => l) st root = Some st' ->
   forall s x b, GV (ls_g st) s x b -> GV (ls_g st') s x b.
 Proof. exact pass3_preserves. Qed.
 Print Assumptions C01_d4_pass3_preserves.
